@@ -31,7 +31,8 @@ from vlib import MachineryError, TLCResult, SPEC, VERIF, go_env, main, tla_unesc
 MOD = "example.com/w"
 METHODS = ["", "Alpha", "Beta"]
 GO = {"string": "string", "int": "int", "bool": "bool", "ptr": "*rt.T", "slice": "[]int", "map": "map[string]int",
-      "func": "func() int", "chan": "chan int", "iface": "rt.Rd", "any": "interface{}", "error": "error"}
+      "func": "func() int", "chan": "chan int", "iface": "rt.Rd", "any": "interface{}", "error": "error",
+      "nslice": "rt.NS", "struct": "rt.S"}
 
 
 # --------------------------------------------------------------------------------------------- TLC helper
@@ -109,20 +110,27 @@ def split(xs, n):
 
 
 # --------------------------------------------------------------------------------------------- world
-def iface_src(classes, names=None):
-    """names: optional {class id: interface name} (default I_<id>)"""
+def iface_src(classes, names=None, noise=False):
+    """names: optional {class id: interface name} (default I_<id>).  noise: surround the class's methods by
+    methods of OTHER shapes that are never called (per-mock template state must not leak between methods)."""
     out = ["package src", "", 'import "example.com/w/rt"', "", "var _ rt.T", ""]
     for c in classes:
-        g = (lambda k: "K" if (c.get("gen") and k == "string") else GO[k])
+        g = (lambda k: {"string": "K", "any": "V"}.get(k, GO[k]) if c.get("gen") else GO[k])
         ps = [f"{n} {g(k)}" for n, k in zip(c["names"], c["pk"])]
         if c["vk"] != "none":
             ps.append(f"{c['names'][-1]} ...{g(c['vk'])}")
         rs = [g(k) for k in c["rk"]]
-        res = "" if not rs else (" " + rs[0] if len(rs) == 1 else " (" + ", ".join(rs) + ")")
+        if c.get("rn"):
+            rs = [f"{n} {t}" for n, t in zip(c["rn"], rs)]
+        res = "" if not rs else (" " + rs[0] if len(rs) == 1 and not c.get("rn") else " (" + ", ".join(rs) + ")")
         iname = (names or {}).get(c["id"], "I_" + c["id"])
-        out.append(f"type {iname}{'[K any]' if c.get('gen') else ''} interface {{")
+        out.append(f"type {iname}{'[K comparable, V any]' if c.get('gen') else ''} interface {{")
+        if noise:
+            out.append("\tAaa(x rt.Rd) (int, error)" if c["vk"] != "none" else "\tAaa(n int, vs ...interface{}) error")
         for m in METHODS[1:c["nm"] + 1]:
             out.append(f"\t{m}({', '.join(ps)}){res}")
+        if noise:
+            out.append("\tZzz(b bool, more ...string)" if c["rk"] else "\tZzz() (string, error)")
         out.append("}")
         out.append("")
     return "\n".join(out)
@@ -182,7 +190,7 @@ def gen_adapter(c, layout="", iname=None):
         cid = c["id"]
     np_, nr, var = len(pk), len(rk), c["vk"] != "none"
     A = "ad_" + cid
-    inst = "[string]" if c.get("gen") else ""
+    inst = "[string, interface{}]" if c.get("gen") else ""
     params = [f"p{i} {GO[k]}" for i, k in enumerate(pk)] + ([f"pv ...{GO[vk]}"] if var else [])
     sigp = ", ".join(params)
     rts = [GO[k] for k in rk]
@@ -242,6 +250,8 @@ def gen_adapter(c, layout="", iname=None):
             return "\n".join(lines)
         o.append("\tswitch op.Style {")
         o += ['\tcase "ret":', f"\t\tc.Return({retvals})"]
+        rawvals = ", ".join(f"rt.Raw(op.Rets[{i}], func() interface{{}} {{ return rt.C_{k}({20 + i}, op.Rets[{i}]) }})" for i, k in enumerate(rk))
+        o += ['\tcase "rawret":', f"\t\tc.Call.Return({rawvals})"]
         o += ['\tcase "runret":', f"\t\tc.Run({cb('run', [], None)}).Return({retvals})"]
         o += ['\tcase "run":', f"\t\tc.Run({cb('run', [], None)})"]
         o += ['\tcase "rar":', f"\t\tc.RunAndReturn({cb('rar', rts, retvals if nr else None)})"]
@@ -252,6 +262,9 @@ def gen_adapter(c, layout="", iname=None):
                 o += ['\tcase "wslice":', f"\t\tc.Call.Return(func({sigs}){ressig(rts)} {{\n\t\t\ta.log.Cb(\"whole\", {absf}, {absv})\n\t\t\treturn {retvals}\n\t\t}})"]
             provs = ", ".join(cb(f"p{i}", [rts[i]], f"rt.C_{k}({20 + i}, op.Rets[{i}])") for i, k in enumerate(rk))
             o += ['\tcase "per":', f"\t\tc.Call.Return({provs})"]
+            if nr > 1:
+                mix = ", ".join([f"rt.C_{rk[0]}(20, op.Rets[0])"] + [cb(f"p{i}", [rts[i]], f"rt.C_{k}({20 + i}, op.Rets[{i}])") for i, k in enumerate(rk) if i > 0])
+                o += ['\tcase "permix":', f"\t\tc.Call.Return({mix})"]
         o += ['\tcase "none":', "\tdefault:", '\t\tpanic("rt: style not applicable: " + op.Style)', "\t}"]
         o += ["\tif op.Rem == 1 {", "\t\tc.Once()", "\t} else if op.Rem > 1 {", "\t\tc.Times(op.Rem)", "\t}", "}", ""]
         # ---- call
@@ -329,7 +342,7 @@ def build_world(ctx, classes):
     (w / "srcsh").mkdir()
     src = iface_src([], None).replace("package src", "package srcsh")
     for lay, names in layouts.items():
-        src += "\n".join(iface_src([c for c in alive if c["id"] in names], names).split("\n")[6:])
+        src += "\n".join(iface_src([c for c in alive if c["id"] in names], names, noise=True).split("\n")[6:])
     (w / "srcsh" / "src.go").write_text(src)
     (w / ".mockery.yml").write_text(json.dumps(shared_conf(alive, layouts)))
     t1 = time.time()
@@ -405,6 +418,8 @@ def op_key(o):
         return json.dumps(["e", o["m"], o["ms"], o["style"], o["rets"], o["rem"]])
     if o["op"] == "call":
         return json.dumps(["c", o["m"], o["f"], o["v"], o["form"]])
+    if o["op"] == "bystander":
+        return '"b-%s"' % o["kind"]
     return '"u"' if o["op"] == "usererrorf" else '"x"'
 
 
@@ -428,6 +443,8 @@ def dedupe_prefixes(cases):
 
 
 def vals_of(kind):
+    if kind in ("any", "iface", "error", "slice", "nslice", "map"):
+        return ["V0", "V1", "V2", "V3"]
     return ["V0", "V1"] if kind == "bool" else ["V0", "V1", "V2"]
 
 
@@ -446,7 +463,8 @@ def random_history(rng, c, max_ops, max_exp):
     """A random op history over the wide alphabet; no expectations are computed here -- TLC judges the log."""
     np_, nr, var = len(c["pk"]), len(c["rk"]), c["vk"] != "none"
     unrolled = c["unroll"] == "true"
-    styles = ["ret", "runret", "rar", "none", "run"] + (["whole", "per"] if nr else []) + (["wslice"] if nr and var else [])
+    styles = (["ret", "runret", "rar", "none", "run"] + (["whole", "per", "rawret"] if nr else []) + (["wslice"] if nr and var and not (nr == 1 and c["rk"][0] == "any") else [])
+              + (["permix"] if nr > 1 else []))
     ops, exps = [], []
     n = rng.randint(3, max_ops)
 
@@ -458,6 +476,9 @@ def random_history(rng, c, max_ops, max_exp):
     while len(ops) < n:
         if rng.random() < 0.06:
             ops.append({"op": "usererrorf"})
+            continue
+        if rng.random() < 0.06 and sum(1 for o in ops if o["op"] == "bystander") < 2:
+            ops.append({"op": "bystander", "kind": rng.choice(["clean", "unmet"])})
             continue
         if len(exps) < max_exp and (not exps or rng.random() < 0.35):
             base = rand_fixed("V1")
@@ -475,7 +496,7 @@ def random_history(rng, c, max_ops, max_exp):
                 else:
                     vm = [slc(q)]
             style = rng.choice(styles)
-            rets = [rng.choice(vals_of(k)) for k in c["rk"]] if style in ("ret", "runret", "rar", "whole", "wslice", "per") else []
+            rets = [rng.choice(vals_of(k)) for k in c["rk"]] if style in ("ret", "rawret", "runret", "rar", "whole", "wslice", "per", "permix") else []
             e = {"op": "expect", "m": rng.randint(1, c["nm"]), "ms": ms + vm, "style": style, "rets": rets,
                  "rem": rng.choice([0, 0, 0, 1, 1, 2, 3]), "_f": base, "_v": q if var else []}
             exps.append(e)
@@ -491,13 +512,14 @@ def random_history(rng, c, max_ops, max_exp):
             form = rng.choice(["absent", "nil", "empty"]) if (var and not v) else "absent"
             ops.append({"op": "call", "m": m, "f": f, "v": v, "form": form})
     ops.append({"op": "cleanup"})
-    return {"class": c["id"], "ops": [{k: v for k, v in o.items() if not k.startswith("_")} for o in ops], "random": True}
+    return {"class": c["id"], "np": np_, "ops": [{k: v for k, v in o.items() if not k.startswith("_")} for o in ops], "random": True}
 
 
 # --------------------------------------------------------------------------------------------- replay
 def run_driver(ctx, drv, cases, tag):
     d = ctx.mkdir("replay-" + tag)
-    inp = {"cases": [{"class": c["class"] + ("@" + c["layout"] if c.get("layout") else ""), "ops": [{k: v for k, v in o.items() if k in ("op", "m", "ms", "style", "rets", "rem", "f", "v", "form")}
+    inp = {"cases": [{"class": c["class"] + ("@" + c["layout"] if c.get("layout") else ""), "np": c.get("np", 0),
+                      "ops": [{k: v for k, v in o.items() if k in ("op", "m", "ms", "style", "rets", "rem", "f", "v", "form", "kind")}
                                                     for o in c["ops"]]} for c in cases]}
     (d / "cases.json").write_text(json.dumps(inp))
     try:
@@ -550,12 +572,14 @@ def trace_events(cases, per, byid, offset=0):
     for ci, c in enumerate(cases):
         if any(e["op"] == "error" for e in per[ci].values()):
             continue
-        evs.append({"op": "reset", "case": ci + offset, "step": -1, "class": {k: byid[c["class"]][k] for k in ("id", "names", "pk", "vk", "rk", "unroll", "nm", "gen")}})
+        evs.append({"op": "reset", "case": ci + offset, "step": -1, "class": {k: byid[c["class"]][k] for k in ("id", "names", "pk", "vk", "rk", "unroll", "nm", "gen", "rn")}})
         for si, o in enumerate(c["ops"]):
             if o["op"] == "expect":
                 evs.append({"op": "expect", "case": ci + offset, "step": si, "m": o["m"], "ms": o["ms"], "style": o["style"], "rets": o["rets"], "rem": o["rem"]})
             elif o["op"] == "usererrorf":
                 evs.append({"op": "usererrorf", "case": ci + offset, "step": si})
+            elif o["op"] == "bystander":
+                evs.append({"op": "bystander", "case": ci + offset, "step": si, "kind": o["kind"]})
             elif si in per[ci]:
                 pr = project(o, per[ci][si])
                 if o["op"] == "call":
@@ -655,7 +679,10 @@ def new_guard():
             "variadic_slice_match": 0, "variadic_elem_match": 0, "once_exhausted": 0, "second_expectation": 0,
             "nil_iface_arg_through_run": 0, "nil_iface_arg_through_rar_no_result": 0, "whole_provider_variadic_multi_unrolled": 0,
             "whole_provider_variadic_multi_slice_mode": 0, "slice_form_provider_accepted_by_impl": 0, "slice_form_provider_refused_by_impl": 0,
-            "unmet_after_unexpected_call_failed_the_test": 0, "unmet_after_users_errorf": 0, "all_met_in_failed_test": 0}
+            "unmet_after_unexpected_call_failed_the_test": 0, "unmet_after_users_errorf": 0, "all_met_in_failed_test": 0,
+            "untyped_nil_return_of_map_slice_func_chan_ptr": 0, "mixed_value_and_provider_return": 0, "nil_lookalike_returned": 0,
+            "nil_lookalike_argument_seen_by_callback": 0, "other_instance_unmet_while_own_met": 0, "other_instance_clean_while_own_unmet": 0,
+            "other_instance_created_first": 0}
 
 
 def count_guards(guard, cases, byid):
@@ -677,6 +704,11 @@ def count_guards(guard, cases, byid):
                 guard["slice_form_provider_accepted_by_impl"] += o["style"] == "wslice" and o["impl"]["kind"] == "values"
                 guard["slice_form_provider_refused_by_impl"] += o["style"] == "wslice" and o["impl"]["kind"] == "panic"
                 guard["second_expectation"] += o["matched"] >= 2
+                guard["untyped_nil_return_of_map_slice_func_chan_ptr"] += o["style"] == "rawret" and e["kind"] == "values" and any(
+                    v == "V0" and kk in ("map", "slice", "nslice", "func", "chan", "ptr") for kk, v in zip(k["rk"], e["vals"]))
+                guard["mixed_value_and_provider_return"] += o["style"] == "permix" and e["kind"] == "values"
+                guard["nil_lookalike_returned"] += e["kind"] == "values" and "V3" in e["vals"]
+                guard["nil_lookalike_argument_seen_by_callback"] += bool(e["cbs"]) and "V3" in o["f"]
                 if k["vk"] != "none" and o["matched"] > 0 and o["v"]:
                     guard["variadic_elem_match" if k["unroll"] == "true" else "variadic_slice_match"] += 1
             elif o["op"] == "cleanup":
@@ -686,6 +718,12 @@ def count_guards(guard, cases, byid):
                 guard["unmet_after_unexpected_call_failed_the_test"] += o["expect"] == "yes" and any(q["op"] == "call" and q["matched"] == 0 for q in before)
                 guard["unmet_after_users_errorf"] += o["expect"] == "yes" and any(q["op"] == "usererrorf" for q in before)
                 guard["all_met_in_failed_test"] += o["expect"] == "no" and o["failed"]
+                bys = [q["kind"] for q in before if q["op"] == "bystander"]
+                own_exp = any(q["op"] == "expect" for q in before)
+                own_met = own_exp and any(q["op"] == "call" and q["matched"] > 0 for q in before)
+                guard["other_instance_unmet_while_own_met"] += "unmet" in bys and own_met and o["expect"] == "yes"
+                guard["other_instance_clean_while_own_unmet"] += bys == ["clean"] and own_exp and not own_met and o["expect"] == "yes"
+                guard["other_instance_created_first"] += bool(before) and before[0]["op"] == "bystander"
         calls = [o for o in c["ops"] if o["op"] == "call"]
         for a, b in zip(calls, calls[1:]):
             guard["once_exhausted"] += a["matched"] > 0 and b["matched"] != a["matched"] and (a["f"], a["v"], a["m"]) == (b["f"], b["v"], b["m"])
@@ -705,7 +743,7 @@ def process_batch(ctx, st, cases, tag):
     shared = []
     for lay, names in sorted(ctx.layouts.items()):
         for c in live:
-            if c["class"] in names and (c.get("random") or c.get("mode") in ("single", "sim")):
+            if c["class"] in names and (c.get("random") or c.get("mode") in ("single", "sim", "multi")):
                 shared.append(dict(c, layout=lay))
     allc = live + shared
     if not allc:
@@ -734,7 +772,7 @@ def process_batch(ctx, st, cases, tag):
         if c.get("random"):
             continue
         for si, o in enumerate(c["ops"]):
-            if o["op"] in ("expect", "usererrorf"):
+            if o["op"] in ("expect", "usererrorf", "bystander"):
                 continue
             if si not in per[ci]:
                 raise MachineryError(f"driver log has no event for case {ci} step {si}")
@@ -840,7 +878,8 @@ def run(ctx):
     if len(classes) < 20:
         raise MachineryError(f"only {len(classes)} signature classes")
     pair_ids = sorted(set(parse_prints(r0.text, "PAIR")) & set(byid)) if not thorough else sorted(byid)
-    if len(pair_ids) < 5:
+    multi_ids = sorted(set(parse_prints(r0.text, "MULTI")) & set(byid))
+    if len(pair_ids) < 5 or len(multi_ids) < 5:
         raise MachineryError("no classes for the pair mode")
 
     # ------------------------------------------------------------ 1. TLC (in the background) ...
@@ -856,6 +895,9 @@ def run(ctx):
             jobs.append(("pair", pool.submit(run_tlc_export, ctx, f"pair{gi}", "TestifyMockGen",
                                              cfg_text("TestifyMock_quickpair.cfg", Classes="<- GenClasses"),
                                              files={"TestifyMockGen.tla": gen_module(g)}, timeout=600)))
+        jobs.append(("multi", pool.submit(run_tlc_export, ctx, "multi0", "TestifyMockGen",
+                                          cfg_text("TestifyMock_multi.cfg", Classes="<- GenClasses"),
+                                          files={"TestifyMockGen.tla": gen_module(multi_ids)}, timeout=600)))
     else:
         for gi, g in enumerate(split(ids, 4)):
             jobs.append(("single", pool.submit(run_tlc_export, ctx, f"single{gi}", "TestifyMockGen",
@@ -872,6 +914,10 @@ def run(ctx):
             jobs.append(("pair", pool.submit(run_tlc_export, ctx, f"pair{gi}", "TestifyMockGen",
                                              cfg_text("TestifyMock_quickpair.cfg", Classes="<- GenClasses"),
                                              files={"TestifyMockGen.tla": gen_module(g)}, timeout=2400)))
+        for gi, g in enumerate(split(ids, 2)):
+            jobs.append(("multi", pool.submit(run_tlc_export, ctx, f"multi{gi}", "TestifyMockGen",
+                                              cfg_text("TestifyMock_multi.cfg", Classes="<- GenClasses"),
+                                              files={"TestifyMockGen.tla": gen_module(g)}, timeout=2400)))
         for gi, g in enumerate(split(ids, 2)):
             jobs.append(("sim", pool.submit(run_tlc_export, ctx, f"sim{gi}", "TestifyMockGen",
                                             cfg_text("TestifyMock_sim.cfg", Classes="<- GenClasses"),
@@ -912,6 +958,7 @@ def run(ctx):
         st["exported"] += len(cs)
         for c in cs:
             c["mode"] = kind
+            c["np"] = len(byid[c["class"]]["pk"])
         if thorough:                        # one batch per TLC job keeps the memory bounded
             process_batch(ctx, st, dedupe_prefixes(cs), r.cfg)
         else:
